@@ -538,6 +538,13 @@ func (l *Lexer) readHTML() string {
 			out.Truncate(out.Len() - 1)
 		}
 
+		if escapedBraces {
+			// both braces are text, the second one
+			// must not open a block with what follows
+			out.WriteByte(l.char)
+			l.readChar()
+		}
+
 		out.WriteByte(l.char)
 		l.readChar()
 	}
